@@ -62,4 +62,19 @@ def dDeepDefault : Doc :=
     (.node .schema {} [("items", .node .innerSchemaRef { flags := ["resolved"] }
         [("value", .node .schema { lists := [("type", ["integer"])], flags := ["simple"], vals := [("default", .str)] } [])])]) []))]]
 
+/-- a response header with an integer schema and the example `"x"` -/
+def headerWithExample (v : Val) : Doc :=
+  .node .headerRef { strs := [("key", "X-H")], flags := ["resolved"] }
+    [("value", .node .header { flags := ["hasSchema", "hasExample"], nums := [("content", 0)], vals := [("example", v)] }
+      [("schema", schemaRefTo (.node .schema { lists := [("type", ["integer"])], flags := ["simple"] } []))])]
+def dHeaderExample : Doc :=
+  root [pathItem "/p" [op [] (.node .response { flags := ["hasDescription"] } [("headers", headerWithExample .str)])]]
+def dHeaderExampleOK : Doc :=
+  root [pathItem "/p" [op [] (.node .response { flags := ["hasDescription"] } [("headers", headerWithExample .int)])]]
+
+/-- two operations under `/r/{n}`: `get` declares `n`, `put` does not -/
+def dSecondOp : Doc :=
+  root [pathItem "/r/{n}" [op [pathParam "n"] plainResponse,
+    .node .operation { strs := [("key", "put")] } [("parameters", .node .parameters {} []), ("responses", okResponses plainResponse)]]]
+
 end KinModel.DocValidate.W
